@@ -47,11 +47,43 @@ def scan_assumptions():
     return out
 
 
+def retag(prop, u, r, o):
+    """the property tags of an obligation as of NOW (spec file, range-form membership), not as cached"""
+    if o['kind'] == 'postcondition' and u is not None and hasattr(u, 'spec') and r['function'] in u.spec.funcs:
+        # tags come from the CURRENT spec file (a cached result may predate a re-tagging)
+        cid = o['id'].rsplit('/ensures.', 1)[-1]
+        for c in u.spec.funcs[r['function']].clauses:
+            if c.kind == 'ensures' and c.id == cid:
+                o = dict(o, tags=list(c.tags))
+    if o['kind'] == 'relational' and getattr(u, 'also_for', None) == prop and prop not in o['tags']:
+        # range form == single forms in order: part of the decision of every property that names the range forms
+        o = dict(o, tags=list(o['tags']) + [prop])
+    return o
+
+
+def refutes(prop, u, r):
+    """does this unit result refute an obligation of prop that is not a listed known finding?  (quick tier: the
+    remaining units are not waited for once the verdict is a violation)"""
+    if r.get('status') != 'done':
+        return False
+    known = load_known()
+    for o in r['obligations']:
+        if o['kind'] in ('vacuity', 'unwind', 'spec-sanity') or o['status'] != 'FAILURE':
+            continue
+        o = retag(prop, u, r, o)
+        if prop in o['tags'] and not any(f.get('status') == 'known' and f.get('property') == prop and re.search(f['match'], o['id']) for f in known):
+            return True
+    return False
+
+
 def decide(prop, tier, seed, gdir, units, results, notes, wall):
     undec = []
     obls = []
     unit_by_id = {u.id: u for u in units}
     for r in results:
+        if r['status'] == 'cancelled':
+            undec.append('%s: not run to the end (a violation had been found already)' % r['unit'])
+            continue
         if r['status'] != 'done':
             undec.append('%s: %s %s' % (r['unit'], r['status'], r.get('error', '')[:400]))
             continue
@@ -62,15 +94,7 @@ def decide(prop, tier, seed, gdir, units, results, notes, wall):
         for o in r['obligations']:
             if o['kind'] == 'vacuity':
                 continue
-            if o['kind'] == 'postcondition' and u is not None and hasattr(u, 'spec') and r['function'] in u.spec.funcs:
-                # tags come from the CURRENT spec file (a cached result may predate a re-tagging)
-                cid = o['id'].rsplit('/ensures.', 1)[-1]
-                for c in u.spec.funcs[r['function']].clauses:
-                    if c.kind == 'ensures' and c.id == cid:
-                        o = dict(o, tags=list(c.tags))
-            if o['kind'] == 'relational' and getattr(u, 'also_for', None) == prop and prop not in o['tags']:
-                # range form == single forms in order: part of the decision of every property that names the range forms
-                o = dict(o, tags=list(o['tags']) + [prop])
+            o = retag(prop, u, r, o)
             if o['status'] not in ('SUCCESS', 'FAILURE'):
                 # the back end gave no verdict for this obligation (solver killed, out of memory, ...): undecided
                 undec.append('%s: no verdict (%s) for %s' % (r['unit'], o['status'], o['id'][:120]))
